@@ -460,7 +460,7 @@ class FuncEmitter:
         """Emit the context-switch prologue of visible op k. Returns k."""
         if not s.thread:
             if cond is not None:
-                s.S(f"if (!({cond})) vp_plain_block();")
+                s.S(f"if (!({cond})) vp_plain_block({bk or 'VP_B_NONE'}, {a});")
             return None
         k = s.nvis; s.nvis += 1
         s.vis.append((k, kind, desc))
